@@ -1509,9 +1509,14 @@ void mcount_rstack_inject_return(struct mcount_thread_data *mtdp, unsigned long 
 	mcount_save_filter(mtdp);
 }
 
-/* trigger actions which change the filter state in the thread data */
-#define FILTER_STATE_FLAGS                                                                         \
-	(TRIGGER_FL_FILTER | TRIGGER_FL_DEPTH | TRIGGER_FL_TIME_FILTER | TRIGGER_FL_SIZE_FILTER)
+/*
+ * trigger actions a rejected function still needs a shadow stack entry for:
+ * those which change the filter state in the thread data, and 'finish' which
+ * is carried out by mcount_entry_filter_record()
+ */
+#define REJECTED_ENTRY_FLAGS                                                                       \
+	(TRIGGER_FL_FILTER | TRIGGER_FL_DEPTH | TRIGGER_FL_TIME_FILTER | TRIGGER_FL_SIZE_FILTER |  \
+	 TRIGGER_FL_FINISH)
 
 static int __mcount_entry(unsigned long *parent_loc, unsigned long child, struct mcount_regs *regs)
 {
@@ -1540,9 +1545,11 @@ static int __mcount_entry(unsigned long *parent_loc, unsigned long child, struct
 		 * A rejected function whose trigger changed the filter state
 		 * keeps a (not recorded) entry in the shadow stack, like
 		 * __cygprof_entry() does: the new state holds for its callees
-		 * and is restored when it returns.
+		 * and is restored when it returns.  So does one with the
+		 * finish trigger: mcount_entry_filter_record() finishes the
+		 * trace whether the function is recorded or not.
 		 */
-		if (filtered == FILTER_OUT && (tr.flags & FILTER_STATE_FLAGS)) {
+		if (filtered == FILTER_OUT && (tr.flags & REJECTED_ENTRY_FLAGS)) {
 			norecord = true;
 		}
 		else {
